@@ -54,6 +54,8 @@ func NewFloatListDecoder(reuseRecords bool) *FloatListDecoder {
 }
 
 func (d *FloatListDecoder) makeFloatSlice(n uint32) []float64 {
+	// n comes from the input: use it as a capacity hint only up to a limit
+	n = minUint32(n, 4096)
 	if d.sl == nil {
 		return make([]float64, 0, n)
 	}
